@@ -1,21 +1,21 @@
 open Gen
 open Util
 
-let parse_obs bs (o : (string * string) list) : C02.c02_obs * bool =
+let parse_obs ?(sfx = "") bs (o : (string * string) list) : C02.c02_obs * bool =
   match get_opt o "crash" with
   | Some _ -> ({ C02.p_decode = Outcome.Panic; p_from_slice = Outcome.Panic; p_from_slice_exact = Outcome.Panic;
                  p_view = Outcome.Panic; p_view_exact = Outcome.Panic; p_read = Outcome.Panic; p_read_into = Outcome.Panic }, false)
   | None ->
     let mo k = outcome_of (get o k) None msg_of_okbody in
     let skip = (get o "rd" = "skip") in
-    let rd = let s = get o "rd" in
+    let rd = let s = get o ("rd" ^ sfx) in
       if s = "skip" then Outcome.Err Outcome.EOther
       else if s = "panic" then Outcome.Panic
       else if String.length s >= 4 && String.sub s 0 4 = "err:" then Outcome.Err (err_of_string (String.sub s 4 (String.length s - 4)))
       else (match split_on '/' s with
         | [ms; rs] -> (match outcome_of ms None msg_of_okbody with Outcome.Ok m -> Outcome.Ok (m, bytes_of_hex rs) | _ -> failwith "rd")
         | _ -> failwith ("bad rd " ^ trunc s)) in
-    let ri = let s = get o "ri" in
+    let ri = let s = get o ("ri" ^ sfx) in
       if s = "skip" then Outcome.Err Outcome.EOther
       else if s = "panic" then Outcome.Panic
       else if String.length s >= 4 && String.sub s 0 4 = "err:" then Outcome.Err (err_of_string (String.sub s 4 (String.length s - 4)))
@@ -59,13 +59,15 @@ let net_step cs os =
 let step _ cs os =
   if get_opt (fields cs) "kind" = Some "net" then net_step cs os else
   let bs = bytes_of_hex (get (fields cs) "bytes") in
-  let (impl, skip) = parse_obs bs (fields os) in
   let model = C02.model_C02 bs in
   let out = ref [] in
   if not (C02.ok_C02 bs model) then out := "BAD\tside=model\tclause=ok_C02(model)=false (theorem C02_holds contradicted?)" :: !out;
-  if not (C02.ok_C02 bs impl) then out := "BAD\tside=impl\tclause=ok_C02" :: !out;
-  let d = describe_diff impl model skip in
-  if d <> "" then out := ("DIFF\tfields=" ^ d) :: !out;
+  (* the blocking readers (rd, ri) and the async readers (rda, ria): one observation each *)
+  Stdlib.List.iter (fun (sfx, what) ->
+      let (impl, skip) = parse_obs ~sfx bs (fields os) in
+      if not (C02.ok_C02 bs impl) then out := ("BAD\tside=impl\tclause=ok_C02" ^ what) :: !out;
+      let d = describe_diff impl model skip in
+      if d <> "" then out := ("DIFF\tfields=" ^ d ^ what) :: !out) [("", ""); ("a", "(async readers)")];
   !out
 
 let () = run step
